@@ -47,6 +47,7 @@ def units(tier, seed):
     ns = 3 if tier == "quick" else 4
     u = [dict(kind="box", sa=a, sb=b, tier=tier, base=k, ya=y) for a in range(ns) for b in range(ns) for k in range(2) for y in range(len(yaws_a(tier)))]
     u += [dict(kind="roi", lo=i, hi=i + 9) for i in range(0, 81, 9)]
+    u.append(dict(kind="neartie"))
     return u
 
 
@@ -75,7 +76,18 @@ def _place(kind, a, sb, yb):
     return ax + dx, ay + dy, yb, sb
 
 
+NEARTIE_EPS = [1e-5, -1e-5, 2e-5, -2e-5, 6e-5, -6e-5, 3e-4, -3e-4]
+
+
 def run_unit(unit, acc):
+    if unit["kind"] == "neartie":
+        # ground truth seen diagonally: its 2nd and 3rd nearest corners are 3.5e-6 .. 1e-4 m apart in ego distance (not tied: the
+        # nearest side is well defined), and the estimate deviates differently on the two candidate sides
+        for eps in NEARTIE_EPS:
+            for phi in (0.0, 0.7, -2.0, 3.0):
+                for shape in (0, 1):
+                    check_case(dict(kind="neartie", eps=eps, phi=phi, shape=shape), acc)
+        return
     if unit["kind"] == "roi":
         rois = [(x, y, w, h) for x in (0, 3, 7) for y in (0, 3, 7) for w in (1, 4, 10) for h in (1, 4, 10)]
         for i in range(unit["lo"], unit["hi"]):
@@ -115,6 +127,29 @@ def check_case(case, acc):
     def bad(sig, msg):
         acc.violation(sig, msg + " | " + str(case), case)
 
+    if case["kind"] == "neartie":
+        eps, phi = case["eps"], case["phi"]
+        gsz, esz, shift = ((2.0, 4.0, 1.5), (2.0, 6.0, 1.5), 1.0) if case["shape"] == 0 else ((1.0, 3.0, 1.5), (1.4, 3.0, 1.5), 0.0)
+        gx, gy = (5.0, 10.0 + eps) if case["shape"] == 0 else (4.0, 7.0 + eps)   # (7, 9+eps) / (3, 11+eps) resp. (5.5, 6.5+eps) / (2.5, 7.5+eps)
+        if case["shape"] == 1:   # choose the centre so that the two candidate corners are equidistant at eps = 0: (x+1.5)^2+(y-.5)^2 = (x-1.5)^2+(y+.5)^2 -> y = 3x
+            gx, gy = 2.5, 7.5 + eps
+        rx, ry = geom.rot2(gx, gy, phi)
+        ex, ey = geom.rot2(gx + shift, gy, phi)
+        gspec = dict(x=rx, y=ry, z=0.0, yaw=phi, size=list(gsz), uuid="g", label="CAR")
+        espec = dict(x=ex, y=ey, z=0.0, yaw=phi, size=list(esz), uuid="e", label="CAR", score=0.9)
+        g, e = G.mk3d(gspec), G.mk3d(espec)
+        acc.exec()
+        pd = PlaneDistanceMatching(e, g).value
+        acc.compared()
+        want = _ref_plane((ex, ey, phi, esz[0], esz[1]), (rx, ry, phi, gsz[0], gsz[1]))
+        cs = sorted(math.hypot(*c) for c in geom.box_corners(rx, ry, phi, gsz[0], gsz[1]))
+        acc.state(("neartie", eps, phi, case["shape"], want is None), nontrivial=want is not None)
+        acc.outcome(("neartie", None if want is None else round(want, 3)))
+        if want is None:
+            acc.skip("tie:corner-ranking")
+        elif abs(pd - want) > 1e-9:
+            bad("plane-distance:near-tie", "plane distance %r, RMS over the ground truth's two nearest corners %r (2nd / 3rd nearest corner distances %.9f / %.9f)" % (pd, want, cs[1], cs[2]))
+        return
     if case["kind"] == "roi":
         a, b = case["a"], case["b"]
         ea = G.mk2d(dict(roi=a, uuid="a"))
@@ -122,6 +157,12 @@ def check_case(case, acc):
         acc.exec(4)
         iou, iou_r = IOU2dMatching(ea, eb).value, IOU2dMatching(eb, ea).value
         cd, cd_r = CenterDistanceMatching(ea, eb).value, CenterDistanceMatching(eb, ea).value
+        # the same ROIs on objects that also carry a 3-D position (traffic lights do): 2D scores are those of the ROIs
+        pa, pb = G.mk2d(dict(roi=a, uuid="a", pos=[1.0, 0.2, 0.0])), G.mk2d(dict(roi=b, uuid="b", pos=[1.5, 0.2, 0.0]))
+        acc.exec(2)
+        cdp, ioup = CenterDistanceMatching(pa, pb).value, IOU2dMatching(pa, pb).value
+        if abs(cdp - cd) > 1e-12 or abs(ioup - iou) > 1e-12:
+            bad("roi:position-changes-score", "ROI objects that also carry 3-D positions score distance %r / IoU %r, without positions %r / %r" % (cdp, ioup, cd, iou))
         acc.compared()
         ix = max(0, min(a[0] + a[2], b[0] + b[2]) - max(a[0], b[0]))
         iy = max(0, min(a[1] + a[3], b[1] + b[3]) - max(a[1], b[1]))
